@@ -2,6 +2,8 @@ extern crate rustc_version;
 use rustc_version::{version_meta, Channel};
 
 fn main() {
+    // verification hooks are compiled only when this cfg is passed through RUSTFLAGS
+    println!("cargo:rustc-check-cfg=cfg(unitedtraders_aeron_rs_verif)");
     // Set cfg flags depending on release channel
     if let Channel::Nightly = version_meta().unwrap().channel {
         println!("cargo:rustc-cfg=nightly");
